@@ -52,7 +52,7 @@ func zzFamily(fam, j int, sym bool) []byte {
 		for i := 0; i < j; i++ {
 			item = append(item, 0x41, 0x01, 'x')
 		}
-	case 6:
+	case 6, 12, 13: // 12, 13: the lists declare a half / a third of the bytes left (a count that a "so many bytes per element" plausibility test lets through)
 		hdr := 2
 		if !sym && j > 100 {
 			hdr = 4
@@ -60,6 +60,12 @@ func zzFamily(fam, j int, sym bool) []byte {
 		total := hdr*j + 2
 		for i := 0; i < j; i++ {
 			rem := total - hdr*(i+1)
+			if fam != 6 {
+				rem = rem / (fam - 10)
+				if rem < 1 {
+					rem = 1
+				}
+			}
 			if hdr == 2 {
 				if rem > 255 {
 					rem = 255
@@ -110,7 +116,7 @@ func ZZ_C07_growth() {
 			_, ok := Parse(in)
 			got[k] = rt.AllocTotal()
 			rt.AllocEnd()
-			rt.Assert(ok == (fam < 9) || fam == 6, "growth:family-member-decodes")
+			rt.Assert(ok == (fam < 9) || fam == 6 || fam >= 12, "growth:family-member-decodes")
 		}
 		rt.Assert(got[1] <= 3*got[0]+1<<20, "alloc:growth-ratio")
 		rt.Reach("end")
@@ -123,7 +129,7 @@ func ZZ_C07_growth() {
 		_, ok := Parse(in)
 		tot[k] = rt.AllocTotal()
 		rt.AllocEnd()
-		rt.Assert(ok == (fam < 9) || fam == 6, "growth:family-member-decodes")
+		rt.Assert(ok == (fam < 9) || fam == 6 || fam >= 12, "growth:family-member-decodes")
 	}
 	rt.Assert(2*tot[1] <= 5*tot[0]+512, "alloc:growth-ratio")
 	rt.Reach("end")
